@@ -45,7 +45,7 @@ def term(t):
     if k == "rec":
         return "[" + ", ".join(term(a) for a in t["a"]) + "]"
     if k == "adt":
-        return "$" + t["b"] + ("(" + ", ".join(term(a) for a in t["a"]) + ")" if t["a"] else "")
+        return "$" + t["b"] + "(" + ", ".join(term(a) for a in t["a"]) + ")"
     if k == "fn":
         op = t["op"]; a = [term(x) for x in t["a"]]
         if op in INFIX:
@@ -222,8 +222,11 @@ def read_output(P, rel, path):
     r = next(x for x in P["rels"] if x["name"] == rel)
     rows = []
     with open(path, encoding="utf-8", errors="surrogateescape") as f:
-        for line in f.read().split("\n"):
-            if line == "":
+        lines = f.read().split("\n")
+        if lines and lines[-1] == "":
+            lines.pop()            # the terminating newline; an empty line elsewhere is the empty symbol
+        for line in lines:
+            if line == "" and r["arity"] != 1:
                 continue
             if r["arity"] == 0:
                 if line.strip() == "()":
